@@ -11,6 +11,7 @@ import MdwModel.Driver.C03
 import MdwModel.Driver.C02
 import MdwModel.Driver.C18
 import MdwModel.Driver.C14
+import MdwModel.Driver.C08
 import MdwModel.Driver.LiveProps
 import MdwModel.Model.Records
 import Std.Data.HashMap
@@ -50,6 +51,7 @@ def dispatch (prop : String) (kv : List (String × String)) : IO Res := do
   match prop with
   | "C01" => C01.run kv
   | "C14" => C14.run kv
+  | "C08" => C08.run kv
   | "C19" => C19.run kv
   | "C11" => C11.run kv
   | "C03" => C03.run kv
